@@ -21,6 +21,7 @@ VALUE_ATTRS = {"code", "module"}
 VALUE_FUNCS = {
     "str", "list", "tuple", "bytes", "sorted", "deepcopy", "copy.deepcopy", "copy.copy", "tomlkit.dumps", "tomlkit.load",
     "tomlkit.parse", "libcst.parse_module", "cst.parse_module", "json.load", "json.loads", "iter",
+    "codemodder.diff.split_lines",  # the repository's own line splitter: same content, as a list of lines
 }
 CACHE_DECOS = ("cache", "lru_cache", "cached_property")
 
